@@ -825,3 +825,76 @@ func ruleDrainReentrancy(c *Ctx) {
 		}
 	}
 }
+
+// LIN/queue-detach (C01, C03): unqueueEvents takes the queued events off the
+// subscription (`eq := s.eventQueue; s.eventQueue = nil`) and then owns them:
+// on every path from that point it enters the loop that processes them (which
+// re-queues what it does not get to). A return between the detach and the
+// loop drops events the client was promised, and because the subscription's
+// version is not advanced for them, every later event is discarded too.
+func ruleQueueDetach(c *Ctx) {
+	p := c.P
+	fQ := p.Field("server.Subscription.eventQueue")
+	if fQ == nil {
+		c.undecided("server.Subscription.eventQueue", "anchor", "-", "field not found")
+		return
+	}
+	n := 0
+	for _, st := range p.stores[fQ] {
+		if !isNilConst(st.Val) {
+			continue
+		}
+		fn := st.Parent()
+		// a detach: the content was loaded into a local before it is cleared
+		detached := false
+		for _, ld := range p.loads[fQ] {
+			if li, ok := ld.(ssa.Instruction); ok && li.Parent() == fn && dominates(li, st) {
+				detached = true
+			}
+		}
+		if !detached {
+			continue // plain clear (Dispose): nothing is taken over
+		}
+		n++
+		c.inst(1)
+		sp := &Spec{NoHelpers: true}
+		sp.Classify = func(t *Tracer, fr *Frame, in ssa.Instruction) []Ev {
+			if in == ssa.Instruction(st) {
+				return []Ev{{Kind: "detach"}}
+			}
+			if call, ok := isBuiltinCall(in, "len"); ok && fr == t.RootFr {
+				if f, _ := fieldLoad(t.Resolve(fr, call.Call.Args[0]).V); f == fQ {
+					return []Ev{{Kind: "loop"}}
+				}
+			}
+			if _, ok := in.(*ssa.Return); ok && fr == t.RootFr {
+				return []Ev{{Kind: "return"}}
+			}
+			return nil
+		}
+		tr := runTrace(p, fn, sp)
+		bad := ""
+		for _, path := range tr.Paths {
+			d := indexKind(path, "detach")
+			if d < 0 {
+				continue
+			}
+			looped := false
+			for _, e := range path[d:] {
+				if e.Kind == "loop" {
+					looped = true
+				}
+			}
+			if !looped {
+				bad = "a path returns after taking the queued events off the subscription without entering the loop that processes (or re-queues) them: the events are dropped and, the version not being advanced, every later event of the resource is discarded: " + tr.FmtPath(path)
+			}
+		}
+		if tr.Trunc {
+			bad = "path budget exhausted"
+		}
+		c.check(bad == "", fnName(fn), "detached event queue is processed or re-queued on every path", p.InstrPos(st), fmt.Sprintf("%d paths", len(tr.Paths)), bad)
+	}
+	if n == 0 {
+		c.viol("server.Subscription.eventQueue", "detached event queue is processed or re-queued on every path", "-", "no detach site found")
+	}
+}
